@@ -183,7 +183,18 @@ def _layout_of_var(cfg, value, at, var, depth) -> bool:
             if bf is not None and norm(bf[1]) == f"{var}.data" and (kw(bf[0], "order") is None or norm(kw(bf[0], "order")) in ("'K'", "'A'")):
                 continue  # re-laid-out copy
             return False
-        selfmap = isinstance(st, ast.AugAssign) or (isinstance(v, ast.Call) and (
+        def _keeps_layout(e):
+            if isinstance(e, ast.Name):
+                return e.id == g
+            if isinstance(e, ast.IfExp):
+                return _keeps_layout(e.body) and _keeps_layout(e.orelse)
+            if isinstance(e, ast.Call):
+                if isinstance(e.func, ast.Attribute) and e.func.attr == "astype" and norm(e.func.value) == g and kw(e, "order") is None:
+                    return True
+                return (dotted(e.func) or "") in ("np.copy", "numpy.copy") and bool(e.args) and norm(e.args[0]) == g \
+                    and (kw(e, "order") is None or norm(kw(e, "order")) in ("'K'", "'A'"))
+            return False
+        selfmap = (isinstance(v, ast.IfExp) and _keeps_layout(v)) or isinstance(st, ast.AugAssign) or (isinstance(v, ast.Call) and (
             (isinstance(v.func, ast.Attribute) and v.func.attr == "astype" and norm(v.func.value) == g and kw(v, "order") is None)
             or ((dotted(v.func) or "") in ("np.copy", "numpy.copy") and v.args and norm(v.args[0]) == g and (kw(v, "order") is None or norm(kw(v, "order")) in ("'K'", "'A'")))))
         if not selfmap and isinstance(v, ast.Call) and isinstance(v.func, ast.Name) and _RESOLVE.get("f") is not None:
